@@ -58,6 +58,13 @@ def xpbin(path, alg, *args):
     return run(**PARSER.parse_args([path, '--overwrite', 'True', '--algorithm', alg, '--irfname', IRF] + [str(a) for a in args]).__dict__)[0]
 
 
+def as_iterable(paths, k):
+    """the same paths handed over as a list, a tuple, a generator, an iterator or a `map` object: `from_file_list` takes any iterable of paths"""
+    kind = ['list', 'tuple', 'generator', 'iterator', 'map'][k % 5]
+    return {'list': lambda: list(paths), 'tuple': lambda: tuple(paths), 'generator': lambda: (p for p in paths), 'iterator': lambda: iter(list(paths)),
+            'map': lambda: map(str, paths)}[kind](), kind
+
+
 def close_arr(a, b, rtol=3e-5, atol=1e-6):
     a, b = numpy.asarray(a, dtype=float), numpy.asarray(b, dtype=float)
     if a.shape != b.shape:
@@ -98,10 +105,11 @@ def explore(chk, budget=1):
             ref = xBinnedPolarizationCube(mf)
             names = ['COUNTS', 'I', 'Q', 'U', 'W2', 'MU', 'E_MEAN', 'QN', 'UN', 'I_ERR', 'Q_ERR', 'U_ERR', 'PD', 'PD_ERR', 'PA', 'PA_ERR', 'MDP_99', 'N_EFF', 'SIGNIF']
             first = None
-            for o in orders:
-                chk.case(dict(op='PCUBE-sum', parts=sizes, order=list(o), weights=wflag, empty_bins_in_part=lowonly), nontrivial=nparts >= 3)
+            for ko, o in enumerate(orders):
+                files, container = as_iterable([pf[i] for i in o], ko)
+                chk.case(dict(op='PCUBE-sum', parts=sizes, order=list(o), weights=wflag, empty_bins_in_part=lowonly, paths_as=container), nontrivial=nparts >= 3)
                 try:
-                    s = xBinnedPolarizationCube.from_file_list([pf[i] for i in o])
+                    s = xBinnedPolarizationCube.from_file_list(files)
                 except BaseException as e:
                     chk.fail('impl', 'PCUBE from_file_list failed: %s: %s' % (type(e).__name__, e), dict(oracle='pcube-sum', order=list(o), weights=wflag))
                     break
@@ -133,10 +141,11 @@ def explore(chk, budget=1):
         def additive(alg, cls, cols, args=(), tol=3e-5):
             pf = [xpbin(p, alg, *args) for p in parts]
             ref = cls(xpbin(merged, alg, *args))
-            for o in orders[:3]:
-                chk.case(dict(op='%s-sum' % alg, parts=sizes, order=list(o)), nontrivial=nparts >= 3)
+            for ko, o in enumerate(orders[:3]):
+                files, container = as_iterable([pf[i] for i in o], ko + 2)
+                chk.case(dict(op='%s-sum' % alg, parts=sizes, order=list(o), paths_as=container), nontrivial=nparts >= 3)
                 try:
-                    s = cls.from_file_list([pf[i] for i in o])
+                    s = cls.from_file_list(files)
                 except BaseException as e:
                     chk.fail('impl', '%s from_file_list failed: %s: %s' % (alg, type(e).__name__, e), dict(oracle='%s-sum' % alg, order=list(o)))
                     return None
